@@ -28,12 +28,12 @@ Definition pressure (X : @M4 R) (e : V4R) (E : R) (x : V3R) : R :=
 Lemma pressure_vecmat (X : @M4 R) (e : V4R) (E : R) (x : V3R) :
   pressure X e E x = aff (vecmat4 (v4scale e E) X) x.
 Proof.
-  destruct X as [[[r0 r1] r2] r3]. destruct r0, r1, r2, r3, e, x.
+  destruct X as [[[[a0 a1 a2 a3] [b0 b1 b2 b3]] [d0 d1 d2 d3]] [g0 g1 g2 g3]]. destruct e as [e0 e1 e2 e3], x as [x y z].
   unfold pressure, aff, vecmat4, v4scale, xyz, dot. cbn [c0 c1 c2 c3 vx vy vz add mul ROps]. ring.
 Qed.
 
 Lemma aff_v4sub (a b : V4R) x : aff (v4sub a b) x = aff a x - aff b x.
-Proof. destruct a, b, x. unfold aff, v4sub, xyz, dot. cbn [c0 c1 c2 c3 vx vy vz add sub mul ROps]. ring. Qed.
+Proof. destruct a as [a0 a1 a2 a3], b as [b0 b1 b2 b3], x as [x y z]. unfold aff, v4sub, xyz, dot. cbn [c0 c1 c2 c3 vx vy vz add sub mul ROps]. ring. Qed.
 
 Lemma Reqb_ROps a b : (@eqb R ROps a b) = Reqb a b.
 Proof. reflexivity. Qed.
@@ -42,15 +42,14 @@ Proof. reflexivity. Qed.
 Theorem contact_plane_unit X1 X2 e1 e2 E1 E2 pl :
   contact_plane X1 X2 e1 e2 E1 E2 = (pl, false) -> dot (xyz pl) (xyz pl) = 1.
 Proof.
-  unfold contact_plane. set (raw := v4sub _ _). set (nrm := norm (xyz raw)).
+  unfold contact_plane. remember (v4sub (vecmat4 (v4scale e1 E1) X1) (vecmat4 (v4scale e2 E2) X2)) as raw eqn:Hraw. set (nrm := norm (xyz raw)).
   destruct (nrm =? zero)%o eqn:Hz; [discriminate|].
   intros H. injection H as <-.
   apply Reqb_false in Hz. cbn [zero ROps] in Hz.
   pose proof (norm_sq (xyz raw)) as Hsq. fold nrm in Hsq.
   destruct raw as [a b c w]. unfold v4divs, xyz in *. cbn [c0 c1 c2 c3] in *.
   unfold dot in *. cbn [vx vy vz add mul div ROps] in *.
-  replace (a / nrm * (a / nrm) + b / nrm * (b / nrm) + c / nrm * (c / nrm))
-    with ((a * a + b * b + c * c) / (nrm * nrm)) by (field; exact Hz).
+  transitivity ((a * a + b * b + c * c) / (nrm * nrm)); [field; exact Hz|].
   rewrite <- Hsq. field. exact Hz.
 Qed.
 
@@ -58,17 +57,17 @@ Theorem contact_plane_equal_pressure X1 X2 e1 e2 E1 E2 pl :
   contact_plane X1 X2 e1 e2 E1 E2 = (pl, false) ->
   forall x, dot (xyz pl) x = c3 pl <-> pressure X1 e1 E1 x = pressure X2 e2 E2 x.
 Proof.
-  unfold contact_plane. set (raw := v4sub _ _). set (nrm := norm (xyz raw)).
+  unfold contact_plane. remember (v4sub (vecmat4 (v4scale e1 E1) X1) (vecmat4 (v4scale e2 E2) X2)) as raw eqn:Hraw. set (nrm := norm (xyz raw)).
   destruct (nrm =? zero)%o eqn:Hz; [discriminate|].
   intros H x. injection H as <-.
   apply Reqb_false in Hz. cbn [zero ROps] in Hz.
   rewrite !pressure_vecmat.
   assert (Hd : aff (vecmat4 (v4scale e1 E1) X1) x - aff (vecmat4 (v4scale e2 E2) X2) x = aff raw x).
-  { unfold raw. rewrite aff_v4sub. reflexivity. }
+  { rewrite Hraw, aff_v4sub. reflexivity. }
   assert (Hn : 0 < nrm).
   { pose proof (norm_nonneg (xyz raw)). fold nrm in H. lra. }
-  destruct raw as [a b c w]. unfold v4divs, xyz, aff in *. cbn [c0 c1 c2 c3] in *.
-  destruct x as [x y z]. unfold dot in *. cbn [vx vy vz add mul div one opp ROps] in *.
+  destruct raw as [a b c w]. destruct x as [x y z].
+  unfold v4divs, aff, xyz, dot in *. cbn [c0 c1 c2 c3 vx vy vz add mul div one opp ROps] in *.
   split; intros Hx.
   - assert (a * x + b * y + c * z + w = 0).
     { apply (Rmult_eq_reg_l (/ nrm)); [|apply Rinv_neq_0_compat; lra].
